@@ -105,6 +105,12 @@ func coldCase(c *fw.Ctx, id string, k int, strata []stratum) {
 	if r.Bool() {
 		addMetaOrigin(cs, r.Intn(9))
 	}
+	// a percentage with an unusual number of decimals, which this process has not read before
+	cs.Script.Vars = append(cs.Script.Vars, &gen.VarDecl{Type: "portion", Name: "cold_p"})
+	cs.Vars["cold_p"] = "12.5" + strings.Repeat("0", []int{0, 17, 18, 40, 61, 62, 63, 64, 65, 100, 500, 1020, 1021, 1022, 1500}[k%15]) + "%"
+	cs.Script.Stmts = append(cs.Script.Stmts, &gen.Send{Sent: &gen.SentValue{E: gen.M("USD", "10")}, Src: gen.SA("world"),
+		Dst: &gen.DstAllot{Items: []*gen.DstAllotItem{{A: &gen.AllotVar{V: gen.V("cold_p")}, To: gen.To(gen.DA("cold"))}, {A: &gen.AllotRemaining{}, To: &gen.KOD{Kept: true}}}}})
+	cs.Tune = append(cs.Tune, nil)
 	txt := gen.PrintCanonical(cs.Script).Text
 	po := real.Parse(txt)
 	if po.Panicked || len(po.Errors) > 0 {
